@@ -25,6 +25,8 @@ func init() {
 			ruleC02R5b(r)
 			ruleC02R6(r)
 			ruleC02R7(r)
+			ruleC02R8(r)
+			ruleC01R8(r)
 		},
 	})
 }
@@ -477,4 +479,64 @@ func ruleC02R7(r *Run) {
 	})
 	r.Check(name+" alias from response", okAlias, p.pos(fn.Pos()), name, detail)
 	r.Check(name+" subscription from response alias", okSub, p.pos(fn.Pos()), name, detail)
+}
+
+// ruleC02R8: a closed result channel (cancellation) is never forwarded as a result.
+func ruleC02R8(r *Run) {
+	r.Begin("R8", "a closed result channel is not a result: wherever a select receives from a per-chunk result channel (element type *message.UpstreamChunkResult) and forwards what it got, the receive is a comma-ok receive and the closed edge forwards nothing — the library closes those channels on teardown, and a nil 'result' would be taken for an ack timeout and drop the stored chunk", 1)
+	p := r.P
+	n := 0
+	for _, fn := range p.Funcs {
+		if fnPkgPath(fn) != modPath+"/iscp" {
+			continue
+		}
+		allInstrs(fn, func(ins ssa.Instruction) {
+			sel, ok := ins.(*ssa.Select)
+			if !ok {
+				return
+			}
+			for i, st := range sel.States {
+				if st.Dir != types.RecvOnly {
+					continue
+				}
+				ch, isCh := st.Chan.Type().Underlying().(*types.Chan)
+				if !isCh || !typeIs(ch.Elem(), modPath+"/message", "UpstreamChunkResult") {
+					continue
+				}
+				// forwards? some send state in this function sends a value of that type
+				forwards := false
+				allInstrs(fn, func(x ssa.Instruction) {
+					if s2, isSel := x.(*ssa.Select); isSel {
+						for _, st2 := range s2.States {
+							if st2.Dir == types.SendOnly && typeIs(st2.Send.Type(), modPath+"/message", "UpstreamChunkResult") {
+								forwards = true
+							}
+						}
+					}
+				})
+				if !forwards {
+					continue
+				}
+				n++
+				name := fnName(fn)
+				// recvOk = Extract #1 used by an If
+				okChk := false
+				if sel.Referrers() != nil {
+					for _, ref := range *sel.Referrers() {
+						if ex, isEx := ref.(*ssa.Extract); isEx && ex.Index == 1 && ex.Referrers() != nil {
+							for _, r2 := range *ex.Referrers() {
+								if _, isIf := r2.(*ssa.If); isIf {
+									okChk = true
+								}
+							}
+						}
+					}
+				}
+				r.Check(fmt.Sprintf("%s case#%d comma-ok", name, i), okChk, p.pos(sel.Pos()), name, "receive from a per-chunk result channel without testing whether the channel was closed")
+			}
+		})
+	}
+	if n == 0 {
+		r.Undecided("result forwarders", "no select forwards per-chunk results")
+	}
 }
